@@ -224,7 +224,7 @@ class ProgGen(object):
                         choices.append(("rget", x))
                     if vt[0] == "arr" and vt[1] == t and x in self.arrlen:
                         choices.append(("aref", x))
-                    if vt[0] == "list" and vt[1] == t and not nocond:
+                    if vt[0] == "list" and vt[1] == t and not nocond and self.in_fun:
                         choices.append(("first", x))
                     if vt[0] == "un" and t in self.uns[vt[1]] and self.in_fun:
                         choices.append(("uget", x))
@@ -234,7 +234,7 @@ class ProgGen(object):
                         choices.append(("len", x))
             if t == BOOL:
                 for x, (vt, _) in all_vars.items():
-                    if isinstance(vt, list) and vt[0] == "list":
+                    if isinstance(vt, list) and vt[0] == "list" and self.in_fun:    # empty? in a file-level conditional: finding F6
                         choices.append(("empty", x))
                     if isinstance(vt, list) and vt[0] == "un" and self.in_fun:   # `case` at file level: known finding
                         choices.append(("uis", x))
@@ -243,7 +243,7 @@ class ProgGen(object):
             if t[0] == "list":
                 choices += ["cons"]
                 for x, (vt, _) in all_vars.items():
-                    if tkey(vt) == tkey(t) and not nocond:
+                    if tkey(vt) == tkey(t) and not nocond and self.in_fun:
                         choices.append(("rest", x))
         c = r.choice(choices)
         if c == "var":
